@@ -129,17 +129,26 @@ fn run_history(out: &mut dyn Write, line: &str) {
     let guards0 = GUARDS.load(SeqCst);
     let exits0 = EXITS.load(SeqCst);
     let v0 = ONLINE_VIOLATIONS.load(SeqCst);
-    let caller_tid = evlog::tid();
+    let main_tid = evlog::tid();
 
     evlog::reset();
     evlog::enable(true);
     evlog::log(evlog::RUN_BEGIN, 0, 0, 0);
 
-    let mut pe_lines: Vec<String> = Vec::new();
-    let mut tc_line: Vec<usize> = Vec::new();
+    let callers = (c.u64("callers", 1) as usize).max(1);
+    let concurrent = c.u64("cmode", 0) != 0;
+    let reuse_vec = c.u64("reuse", 0) != 0;
+    let pe_lines: std::sync::Mutex<Vec<String>> = std::sync::Mutex::new(Vec::new());
+    let tc_line: std::sync::Mutex<Vec<(usize, usize)>> = std::sync::Mutex::new(Vec::new());
     {
         let pool = Pool::new();
-        for (b, &n) in hist.iter().enumerate() {
+        // One caller thread runs a contiguous segment of the history; with several callers the segments run one after the
+        // other (each on a fresh thread) or concurrently on the shared pool.
+        let run_segment = |range: std::ops::Range<usize>| {
+        // like divan's sample loop, the result vector may be cleared and reused from one broadcast to the next
+        let mut reused: Vec<Option<u64>> = Vec::new();
+        for b in range {
+            let n = hist[b];
             let off = offsets[b];
             // State that lives in this frame exactly as long as the broadcast's task block.
             let marker: [u64; 4] = [token(b, 0), !token(b, 0), seed, b as u64];
@@ -148,7 +157,8 @@ fn run_history(out: &mut dyn Write, line: &str) {
             let calls_ref = &calls;
             let panics_ref = &panics;
             let task = move |index: usize| -> u64 {
-                if evlog::tid() != caller_tid {
+                let k = evlog::kidx();
+                if k >= 1 && k < 0xFFFE {
                     install_exit_guard();
                 }
                 evlog::log(evlog::TASK_BEGIN, b as u64, index as u64, 0);
@@ -196,12 +206,18 @@ fn run_history(out: &mut dyn Write, line: &str) {
             };
             evlog::log(evlog::BCAST_CALL, b as u64, n as u64, 0);
             if par_extend {
-                let mut results: Vec<Option<u64>> = Vec::new();
+                let mut fresh: Vec<Option<u64>> = Vec::new();
+                let results: &mut Vec<Option<u64>> = if reuse_vec {
+                    reused.clear();
+                    &mut reused
+                } else {
+                    &mut fresh
+                };
                 if b % 2 == 1 {
                     results.push(Some(7)); // pre-existing element must be kept
                 }
                 let pre = results.len();
-                pool.par_extend(&mut results, n, task);
+                pool.par_extend(results, n, task);
                 evlog::log(evlog::BCAST_RETURN, b as u64, n as u64, 0);
                 let shown: Vec<String> = results[pre..]
                     .iter()
@@ -226,7 +242,7 @@ fn run_history(out: &mut dyn Write, line: &str) {
                         online_violation(9, b as u64, i as u64, "par_extend result misplaced / wrong for a panicked call");
                     }
                 }
-                pe_lines.push(format!("PE {} {}", b, shown.join(",")));
+                pe_lines.lock().unwrap().push(format!("PE {} {}", b, shown.join(",")));
             } else {
                 pool.broadcast(n, |i| {
                     task(i);
@@ -245,9 +261,30 @@ fn run_history(out: &mut dyn Write, line: &str) {
                 }
             }
             let tc = pool.thread_count();
-            tc_line.push(tc);
+            tc_line.lock().unwrap().push((b, tc));
             std::hint::black_box(&marker);
             scribble(0xDEAD_0000_0000_0000 | b as u64);
+        }
+        };
+        if callers == 1 {
+            run_segment(0..hist.len());
+        } else {
+            let per = hist.len().div_ceil(callers).max(1);
+            let segments: Vec<std::ops::Range<usize>> =
+                (0..callers).map(|i| (i * per).min(hist.len())..((i + 1) * per).min(hist.len())).filter(|r| !r.is_empty()).collect();
+            std::thread::scope(|scope| {
+                if concurrent {
+                    for seg in segments {
+                        let f = &run_segment;
+                        scope.spawn(move || f(seg));
+                    }
+                } else {
+                    for seg in segments {
+                        let f = &run_segment;
+                        scope.spawn(move || f(seg)).join().expect("caller thread");
+                    }
+                }
+            });
         }
         // pool dropped here
     }
@@ -284,9 +321,11 @@ fn run_history(out: &mut dyn Write, line: &str) {
     let _ = writeln!(out, "RUN {id} ok");
     let _ = writeln!(out, "CFG {line}");
     let _ = writeln!(out, "ONLINE {}", v1 - v0);
-    let _ = writeln!(out, "WORKERS {workers} EXITED {exited} CALLER {caller_tid}");
-    let _ = writeln!(out, "TC {}", tc_line.iter().map(|x| x.to_string()).collect::<Vec<_>>().join(","));
-    for l in &pe_lines {
+    let _ = writeln!(out, "WORKERS {workers} EXITED {exited} CALLER {main_tid}");
+    let mut tcs = tc_line.lock().unwrap().clone();
+    tcs.sort();
+    let _ = writeln!(out, "TC {}", tcs.iter().map(|x| x.1.to_string()).collect::<Vec<_>>().join(","));
+    for l in pe_lines.lock().unwrap().iter() {
         let _ = writeln!(out, "{l}");
     }
     if c.u64("dump", 1) != 0 {
